@@ -170,6 +170,24 @@ def discriminators(rep: Report, prog: Program) -> None:
                    f"reads the attribute __init__ stores from `{p}` ({sorted(primary)})" if ok else
                    f"reads {sorted(reads)}, none of which __init__ stores from `{p}` (that is {sorted(primary)}): what is written is a derived structure, not what the reader's {c.name}(...) call was given")
     rep.floor('C14-D1 written-state', n_src, 4)
+    # ... and what the reader hands to the constructor is the JSON value itself or its conversion by the reader's own json_to_*
+    # function -- nothing that changes values on the way (nan_to_num_, clamp, a dtype conversion)
+    n_rd = 0
+    for c, tj, dk, lit, others in writers:
+        branch = [n for n, kk, l in tests if kk == dk and l == lit]
+        for call in [x for b in branch for s_ in b.body for x in ast.walk(s_) if isinstance(x, ast.Call) and callee_last(x) == c.name]:
+            for arg in list(call.args) + [k.value for k in call.keywords]:
+                e = inline_temps(rf.node, arg)
+                keys = [x.slice.value for x in ast.walk(e) if isinstance(x, ast.Subscript) and isinstance(x.slice, ast.Constant) and x.slice.value in others]
+                if not keys:
+                    continue
+                n_rd += 1
+                raw = isinstance(e, ast.Subscript)
+                conv = isinstance(e, ast.Call) and isinstance(e.func, ast.Name) and e.func.id.startswith('json_to_') and len(e.args) == 1 and isinstance(e.args[0], ast.Subscript) and not e.keywords
+                rep.ob('C14-D1 read-state', rf.fq(), f"{c.name}(... {norm(e)[:60]} ...)", rf.loc(call), raw or conv,
+                       f"the JSON value of {keys[0]!r}" + (' converted by the reader\'s own function' if conv else '') if raw or conv else
+                       f"`{norm(e)[:70]}` post-processes the value read for {keys[0]!r}: entries the writer wrote (infinities, NaN) come back as something else")
+    rep.floor('C14-D1 read-state', n_rd, 3)
     wl = {(dk, lit) for _, _, dk, lit, _ in writers}
     for n, k, l in tests:
         ok = (k, l) in wl
